@@ -1564,11 +1564,12 @@ package hermes
 // C06  initial water content: every layer starts between wilting point and pore volume, saturated at and below the
 // groundwater table (field capacity there was set to pore volume by setFieldCapacityWithGW just before)
 //@ func Init
-//@   serves C06, C15, C19
+//@   serves C06, C15, C19, C05, C04
 //@   cases g.GROUNDWATERFROM == Polygonfile
 //@   cases g.GROUNDWATERFROM == GWTimeSeries
 //@   requires layers: 1 <= g.N && g.N <= 20 && g.DZ.Num == 10
-//@   requires startday: 2 <= g.ITAG && g.ITAG <= 366
+//@   requires startday: 1 <= g.ITAG && g.ITAG <= 366
+//@   ensures[C05,C04] daybefore: g.TAG.Index == g.ITAG - 2 && g.TAG.Num == real(g.ITAG - 2 + g.TAG.Offset) && unchanged(g.ITAG)
 //@   requires soil: forall(k, 0, g.N, 0 < g.WMIN[k] && g.WMIN[k] < g.W[k] && g.W[k] <= g.PORGES[k])
 //@   requires level: g.GRW >= 0
 //@   requires series: g.GROUNDWATERFROM == GWTimeSeries ==> validGW(g) && len(g.GWTimestamps) > 0 && forallint(d, indom(g.GWTimeSeriesValues, d) ==> g.GWTimeSeriesValues[d] >= 0)
@@ -1762,13 +1763,11 @@ package hermes
 //@   ensures applied: !isnil(g.CropOverwrite) ==> applied == 1
 
 // C09  root radius of every rooted layer is positive (the root length density divides by its square)
-//@ region PhytoOut#rootradius from "WRAD := make([]float64, g.WURZ)" to "for i := 1; i <= g.WURZ; i++ { if g.FRUCHT[g.AKF.Index] == ZR || g.FRUCHT[g.AKF.Index] == K { WRAD[i-1] = .01"
+//@ region PhytoOut#rootradius from "WRAD := make([]float64, g.WURZ)" before "rFreshWeight := make([]float64, g.WURZ)"
 //@   serves C09
+//@   unroll-loops 41
 //@   requires roots: 0 <= g.WURZ && g.WURZ <= 40 && 0 <= g.AKF.Index && g.AKF.Index < 300
 //@   ensures positive: forall(j, 0, g.WURZ, WRAD[j] > 0)
-//@ loop PhytoOut@"for i := 1; i <= g.WURZ; i++ { if g.FRUCHT[g.AKF.Index] == ZR || g.FRUCHT[g.AKF.Index] == K { WRAD[i-1] = .01"
-//@   invariant range: 1 <= \i && \i <= g.WURZ + 1 && len(WRAD) == g.WURZ
-//@   invariant positive: forall(j, 0, \i - 1, WRAD[j] > 0)
 
 // C10/C12  the effective configuration (file overlaid by the batch line) is what the model uses: fertilisation factor as
 // a real fraction, the date converter with the EFFECTIVE century split, and the scalars copied one to one
@@ -1796,3 +1795,123 @@ package hermes
 //@   ensures entry: indom(fp.list, fd.FilePath)
 //@   ensures others: forallkey(k, fp.list, k != fd.FilePath ==> old(indom(fp.list, k)) && fp.list[k] == old(fp.list[k]))
 //@   ensures kept: forallkey(k, old(fp.list), !old(isnil(fp.list)) ==> indom(fp.list, k))
+
+// ---------------------------------------------------------------------------
+// Round-4 strengthening
+
+// C12  the text splitter of the date converter never rejects a text by the VALUES of its fields (which field is day and
+// which is month depends on the format and is decided by the caller): a text of a fitting length is split into its
+// three numbers, in written order
+//@ func extractDate
+//@   serves C12, C10, C04, C05, C16
+//@   opaque ValAsInt
+//@   ghost var k int = 0
+//@   ghost var f1 int = 0
+//@   ghost var f2 int = 0
+//@   ghost var f3 int = 0
+//@   at call ValAsInt: ghost k = k + 1
+//@   after call ValAsInt: ghost f1 = ite(k == 1, res0, f1)
+//@   after call ValAsInt: ghost f2 = ite(k == 2, res0, f2)
+//@   after call ValAsInt: ghost f3 = ite(k == 3, res0, f3)
+//@   ensures accepted: ((short && (len(date) == 6 || len(date) == 8)) || (!short && (len(date) == 8 || len(date) == 10))) ==> isnil(err)
+//@   ensures fields: isnil(err) ==> k == 3 && first == f1 && second == f2 && third == f3
+//@   modifies nothing
+
+// C19  every KA5 bulk density class (1..5) of a soil file gets a bulk density inside the interval Soiltemp is proved for
+//@ func SoilFileData.BulkDensityClassToDensity
+//@   serves C19
+//@   requires slot: 0 <= i && i < len(soildata.BULK) && i < len(soildata.LD)
+//@   requires class: 1 <= soildata.LD[i] && soildata.LD[i] <= 5
+//@   ensures admissible: 1.1 <= soildata.BULK[i] && soildata.BULK[i] <= 1.85
+//@   ensures others: forall(j, 0, len(soildata.BULK), j != i ==> soildata.BULK[j] == old(soildata.BULK[j]))
+
+// C11  the configuration object that receives the overrides of ONE batch line is owned by this call (a local of
+// readConfig): nothing a later run of the session reads is written with this line's settings
+//@ region readConfig#owned from "$start" before "g.GROUNDWATERFROM = hconfig.GroundWaterFrom"
+//@   serves C11
+//@   opaque FilePool.Get NewDefaultConfig
+//@   ghost var owned bool = false
+//@   ghost var calls int = 0
+//@   at call commandlineOverride: ghost owned = ownedlocal(arg1)
+//@   at call commandlineOverride: ghost calls = calls + 1
+//@   ensures private: calls == 1 && owned
+
+// C11  a run writes only its own result files: every result file opened is the file named by the corresponding field of
+// the run's own path set (whose names carry the polygon id and the plot number of the batch line)
+//@ region progout#ownfile after "if g.PROGNOS < g.ENDE {" to "fertFile := g.Session.OpenResultFile("
+//@   serves C11
+//@   ghost var opened string
+//@   ghost var opens int = 0
+//@   at call g.Session.OpenResultFile: ghost opened = arg0
+//@   at call g.Session.OpenResultFile: ghost opens = opens + 1
+//@   ensures own: opens == 1 && opened == hPath.fert
+//@ region LoadManagementConfig#ownfile from "if anyOutPut := config.AnyOutputEnabled(); anyOutPut {" to "if anyOutPut := config.AnyOutputEnabled(); anyOutPut {"
+//@   serves C11
+//@   ghost var opened string
+//@   ghost var opens int = 0
+//@   at call session.OpenResultFile: ghost opened = arg0
+//@   at call session.OpenResultFile: ghost opens = opens + 1
+//@   ensures own: opens <= 1 && (opens == 1 ==> opened == hp.mnam)
+//@ region HermesSession.Run$1#ownyearly from "pnamFile := session.OpenResultFile(" to "pnamFile := session.OpenResultFile("
+//@   serves C11
+//@   ghost var opened string
+//@   at call session.OpenResultFile: ghost opened = arg0
+//@   ensures own: opened == herPath.pnam
+//@ region HermesSession.Run$1#owncrop from "CNAMfile := session.OpenResultFile(" to "CNAMfile := session.OpenResultFile("
+//@   serves C11
+//@   ghost var opened string
+//@   at call session.OpenResultFile: ghost opened = arg0
+//@   ensures own: opened == herPath.cnam
+//@ region HermesSession.Run$1#owndaily from "VNAMfile = session.OpenResultFile(" to "VNAMfile = session.OpenResultFile("
+//@   serves C11
+//@   ghost var opened string
+//@   at call session.OpenResultFile: ghost opened = arg0
+//@   ensures own: opened == herPath.vnam
+//@ region HermesSession.Run$1#ownpf from "pfFile = session.OpenResultFile(" to "pfFile = session.OpenResultFile("
+//@   serves C11
+//@   ghost var opened string
+//@   at call session.OpenResultFile: ghost opened = arg0
+//@   ensures own: opened == herPath.pfnam
+
+// C20  the reader of the groundwater series reads the WHOLE file and stores one entry per record of the polygon:
+// no record of the polygon is skipped, whatever the simulation period
+//@ func ReadGroundWaterTimeSeries
+//@   serves C20
+//@   opaque HasPrefixWithSeperator Explode ValAsFloat HermesSession.Open
+//@   ghost var more bool = true
+//@   ghost var matches int = 0
+//@   after call scanner.Scan: ghost more = res0
+//@   after call HasPrefixWithSeperator: ghost matches = matches + ite(res0, 1, 0)
+//@   ensures whole: isnil(result0) ==> !more
+//@   ensures all: isnil(result0) ==> len(g.GWTimestamps) == matches
+//@ loop ReadGroundWaterTimeSeries#1
+//@   invariant count: len(g.GWTimestamps) == matches
+
+// C09  the nitrogen stress factor of the day is a fraction: 1 at or above the critical N content, 0 at or below the
+// content at which growth stops, in between whatever the two contents are
+//@ region PhytoOut#nstress from "$liststart" before "g.REDUKSUM = g.REDUKSUM + g.REDUK"
+//@   serves C09
+//@   ensures fraction: 0 <= g.REDUK && g.REDUK <= 1
+//@   ensures nostress: g.GEHOB >= g.GEHMIN ==> g.REDUK == 1
+
+// C09  the N concentration of the roots stays non-negative through the end-of-day redistribution (for beet and potato
+// the last block recomputes it from the shoot content just derived from it: in exact arithmetic the same value)
+//@ region PhytoOut#rootn from "if g.WUMAS > WUMALT {" to "$end"
+//@   serves C09
+//@   requires state: g.WUGEH >= 0 && g.WUMAS > 0 && g.OBMAS + g.WORG[3] > 0 && g.OBMAS > 0
+//@   requires crop: 0 <= g.AKF.Index && g.AKF.Index < 300 && 0 <= g.INTWICK.Index && g.INTWICK.Index < 10
+//@   ensures rootn: g.WUGEH >= 0
+//@   ensures kept: !(g.WUMAS > WUMALT) ==> g.WUGEH == old(g.WUGEH)
+
+// C10  the irrigation reader goes through the WHOLE (shared) irrigation file: rows of the simulated field need not be
+// one contiguous block (a file sorted by date across fields is read completely)
+//@ region Input#irrwhole from "for SCHLAG, SLAGtoken, ok := NextLineInut(0, scannerIrrFile, strings.Fields); ok;" to "for SCHLAG, SLAGtoken, ok := NextLineInut(0, scannerIrrFile, strings.Fields); ok;"
+//@   serves C10
+//@   opaque NextLineInut ValAsFloat DateConverter$1
+//@   ghost var more bool = true
+//@   after call NextLineInut: ghost more = res2
+//@   ensures whole: !more
+//@ loop Input@"for SCHLAG, SLAGtoken, ok := NextLineInut(0, scannerIrrFile, strings.Fields); ok;"
+//@   invariant last: more == ok
+//@ loop Input@"for ok := SCHLAG == g.PKT; ok; ok = SCHLAG == g.PKT && valid {"
+//@   invariant last: more == valid
